@@ -4865,3 +4865,16 @@ T('C14', 'twin-boolean-asserted-and-warned', SS, BFLAG, "    def bflag_bytearray
   more=[(SS, "import binascii\n", "import binascii\nimport warnings\n")])
 M('C14', 'boolean-logged-odd-octet-treated-false', SS, BFLAG, "    def bflag_bytearray(self, val):\n        octet = self.bytes_to_int(val)\n        if octet > 1:\n            self._log.debug('boolean octet 0x%02x is neither 0 nor 1; ignoring it', octet)\n            octet = 0\n        self.bflag = bool(octet)",
   'C14.2', more=[(SS, "class Boolean(Signature):\n", "class Boolean(Signature):\n    _log = logging.getLogger('pgpy.packet.subpackets')\n\n"), (SS, "import binascii\n", "import binascii\nimport logging\n")])
+# CANON(DOC) on a path that decided "no LF in DOC" is DOC itself (held-out twin C02-ref13); nothing weaker than that guard
+_CAN = "            _data += re.subn(br'\\r?\\n', b'\\r\\n', subject)[0]\n"
+_FAST = "            if %s:\n                _data += subject\n\n            else:\n                _data += re.subn(br'\\r?\\n', b'\\r\\n', subject)[0]\n"
+for _p in ('C01', 'C02', 'C05', 'C11'):
+    T(_p, 'twin-canon-fast-path-no-lf', PGP, _CAN, _FAST % "isinstance(subject, (bytes, bytearray)) and b'\\n' not in subject")
+    T(_p, 'twin-canon-fast-path-lf-present-first', PGP, _CAN, "            if b'\\n' in subject:\n                _data += re.subn(br'\\r?\\n', b'\\r\\n', subject)[0]\n            else:\n                _data += subject\n")
+for _p, _r in (('C01', 'C01.1'), ('C02', 'C02.1'), ('C11', 'C11.4')):
+    M(_p, 'canon-fast-path-guard-cr-only', PGP, _CAN, _FAST % "isinstance(subject, (bytes, bytearray)) and b'\\r' not in subject", _r)
+    M(_p, 'canon-fast-path-guard-length', PGP, _CAN, _FAST % "len(subject) < 64", _r)
+    M(_p, 'canon-fast-path-guard-type-alone', PGP, _CAN, _FAST % "isinstance(subject, bytearray)", _r)
+    M(_p, 'canon-fast-path-guard-lf-in-prefix-only', PGP, _CAN, _FAST % "b'\\n' not in subject[:64]", _r)
+    M(_p, 'canon-fast-path-guard-inverted', PGP, _CAN, _FAST % "b'\\n' in subject", _r)
+    M(_p, 'canon-fast-path-guard-or-type', PGP, _CAN, _FAST % "isinstance(subject, bytearray) or b'\\n' not in subject", _r)
